@@ -23,6 +23,7 @@ macro_rules! harnesses {
 
 harnesses! {
     c17_detect, unwind = 6, raw = 5, |r| check_detect(r);
+    c17_detect_n7, unwind = 9, raw = 8, |r| check_detect_n::<7>(r);
     c17_refine_table, unwind = 4, raw = 2, |r| check_refine_table(r);
     c17_bom_n2, unwind = 8, raw = 3, |r| check_bom_removed::<2, 5>(r);
 }
